@@ -133,21 +133,29 @@ func (fx *FuncVC) append1(s SliceV, elem types.Type, v Val, pos token.Pos) Slice
 
 // appendMany appends a slice of symbolic length.
 func (fx *FuncVC) appendMany(s, t SliceV, elem types.Type, pos token.Pos) SliceV {
+	// index arithmetic in the sort of the mode (Int, or 64-bit vectors in mode bv)
+	is := string(fx.idxSort())
+	le, lt, add := "<=", "<", "+"
 	if fx.bv {
-		panic(unsupported("append of a symbolic-length slice in mode bv"))
+		le, lt, add = "bvsle", "bvslt", "bvadd"
 	}
+	inRange := func(lo, v, hi string) string { return fmt.Sprintf("(and (%s %s %s) (%s %s %s))", le, lo, v, lt, v, hi) }
 	nlen := Add(s.Len, t.Len)
 	fits := fx.define("fits", Le(nlen, s.Cap, true))
 	nb := fx.newRef("app")
 	ncap := fx.fresh("ncap", fx.idxSort())
 	fx.assumeRaw(And(Le(nlen, ncap, true), Lt(s.Cap, ncap, true)))
+	if fx.bv {
+		fx.assumeRaw(Le(ncap, fx.idx(1<<40), true))
+	}
 	rbase := fx.define("abase", Ite(fits, s.Base, nb))
 	at := Add(s.Off, s.Len)
+	end := Add(at, t.Len)
 	if fx.spec != nil {
 		name := elemHeapName(elem, fx.leavesOf(elem)[0].Path)
-		j := T{"aj?", SInt}
+		j := T{"aj?", fx.idxSort()}
 		in := fx.inRegionsElem(name, fx.frameRegions(), s.Base, j)
-		q := fmt.Sprintf("(forall ((aj? Int)) (=> (and (<= %s aj?) (< aj? %s)) %s))", at.S, Add(at, t.Len).S, Or(Le(fx.alloc0, s.Base, true), in).S)
+		q := fmt.Sprintf("(forall ((aj? %s)) (=> %s %s))", is, inRange(at.S, "aj?", end.S), Or(Le(fx.alloc0, s.Base, true), in).S)
 		fx.oblige("frame", Implies(fits, T{q, SBool}), pos, "in-place append stays in the modifies frame")
 	}
 	for _, l := range fx.leavesOf(elem) {
@@ -160,14 +168,14 @@ func (fx *FuncVC) appendMany(s, t SliceV, elem types.Type, pos token.Pos) SliceV
 		orow := Select(h, s.Base)
 		trow := Select(h, t.Base)
 		// appended part
-		fx.assume(T{fmt.Sprintf("(forall ((aj? Int)) (! (=> (and (<= %s aj?) (< aj? %s)) (= (select %s aj?) (select %s (+ aj? %s)))) :pattern ((select %s aj?))))",
-			at.S, Add(at, t.Len).S, row.S, trow.S, Sub(t.Off, at).S, row.S), SBool})
+		fx.assume(T{fmt.Sprintf("(forall ((aj? %s)) (! (=> %s (= (select %s aj?) (select %s (%s aj? %s)))) :pattern ((select %s aj?))))",
+			is, inRange(at.S, "aj?", end.S), row.S, trow.S, add, Sub(t.Off, at).S, row.S), SBool})
 		// the same fact indexed by the source position, so that a known element of t leads to its copy
-		fx.assume(T{fmt.Sprintf("(forall ((tj? Int)) (! (=> (and (<= %s tj?) (< tj? %s)) (= (select %s (+ tj? %s)) (select %s tj?))) :pattern ((select %s tj?))))",
-			t.Off.S, Add(t.Off, t.Len).S, row.S, Sub(at, t.Off).S, trow.S, trow.S), SBool})
+		fx.assume(T{fmt.Sprintf("(forall ((tj? %s)) (! (=> %s (= (select %s (%s tj? %s)) (select %s tj?))) :pattern ((select %s tj?))))",
+			is, inRange(t.Off.S, "tj?", Add(t.Off, t.Len).S), row.S, add, Sub(at, t.Off).S, trow.S, trow.S), SBool})
 		// everything else in the row is as in the old row of s
-		fx.assume(T{fmt.Sprintf("(forall ((aj? Int)) (! (=> (not (and (<= %s aj?) (< aj? %s))) (= (select %s aj?) (select %s aj?))) :pattern ((select %s aj?)) :pattern ((select %s aj?))))",
-			at.S, Add(at, t.Len).S, row.S, orow.S, row.S, orow.S), SBool})
+		fx.assume(T{fmt.Sprintf("(forall ((aj? %s)) (! (=> (not %s) (= (select %s aj?) (select %s aj?))) :pattern ((select %s aj?)) :pattern ((select %s aj?))))",
+			is, inRange(at.S, "aj?", end.S), row.S, orow.S, row.S, orow.S), SBool})
 		fx.setHeap(name, nh)
 	}
 	return SliceV{rbase, s.Off, nlen, Ite(fits, s.Cap, ncap), s.Typ}
